@@ -1203,7 +1203,7 @@ def gen_rewrite():
     W = words("w", 60)
     svgt = '<svg xmlns="http://www.w3.org/2000/svg" width="120" height="24"><text y="10" font-family="ahem" font-size="6">ta01<tspan>ta02</tspan><tspan dx="2">ta03</tspan></text><text y="20" font-family="ahem" font-size="6" dx="1 2 3">tb01</text></svg>'
     body = (para(W[:8]) + '<p class=ell>%s</p><p class=ell2>%s</p>' % (" ".join(W[8:20]), " ".join(W[20:26])) + "<p>%s</p>" % svgt + '<p class=j>%s</p><p class=j2>%s</p><p class=j>%s</p>' % (" ".join(W[26:36]), " ".join(W[36:44]), " ".join(W[26:36]).replace("w0", "v0")) + para(W[44:]))
-    scenario("rew-01", "rew", doc(css, body, "<title>Rewrite</title>"), expect=dict(page_w=220, page_h=150, meta={"Title": "Rewrite"}, line_height=12, group="rew"))
+    scenario("rew-01", "rew", doc(css, body, "<title>Rewrite</title>"), expect=dict(page_w=232, page_h=162, meta={"Title": "Rewrite"}, line_height=12, group="rew"))
 
 
 def gen_firstletter():
